@@ -39,6 +39,9 @@ def _labels():
         # CR-LF line ends, dash continuation outside and inside quotes
         ("a = 12-\r\n34\r\nb = abc-\r\n   def\r\nc = \"x-\r\n  y\"\r\nEND", [("a", 1234), ("b", "abcdef"), ("c", "xy")]),
         ("a = 1\r\nGROUP = g\r\n  b = 2\r\nEND_GROUP\r\nEND", [("a", 1), ("g", G([("b", 2)]))]),
+        # a file that starts with a byte order mark: U+FEFF is a character like any other for the default
+        # grammar, whichever way the data comes in
+        ("\ufeffa = 1\nb = 2\nEND", [("\ufeffa", 1), ("b", 2)]),
     ]
 
 
@@ -231,10 +234,42 @@ def path_entries(p, data):
     yield "text-stream", text_stream
     yield "BytesIO", lambda **kw: pvl.load(io.BytesIO(data), **kw)
     yield "StringIO", lambda **kw: pvl.load(io.StringIO(data.decode("utf-8")), **kw)
+    # streams the caller has positioned behind a header (a label that is not at the start of the file)
+    header = b"HEADER OF 32 BYTES /* = ( \" */ ;\n"
+    hp = p + ".withheader"
+    with open(hp, "wb") as f:
+        f.write(header + data)
+
+    def bin_at(**kw):
+        with open(hp, "rb") as f:
+            f.seek(len(header))
+            return pvl.load(f, **kw)
+    yield "binary-stream-at-offset", bin_at
+
+    def bin_after_read(**kw):
+        with open(hp, "rb") as f:
+            f.read(len(header))
+            return pvl.load(f, **kw)
+    yield "binary-stream-after-read", bin_after_read
+
+    def bytesio_at(**kw):
+        b = io.BytesIO(header + data)
+        b.seek(len(header))
+        return pvl.load(b, **kw)
+    yield "BytesIO-at-offset", bytesio_at
+
+    def text_at(**kw):
+        with open(hp, "r", encoding="utf-8", newline="") as f:
+            f.read(len(header))
+            return pvl.load(f, **kw)
+    yield "text-stream-after-read", text_at
 
 
 def check_variant(fname, kwname, tailname, acc, tmpdir):
-    data = VARIANT_LABEL.encode("utf-8") + {"none": b"", "binary": b"\xff\xfe\x00\x01junk" * 20}[tailname]
+    data = VARIANT_LABEL.encode("utf-8") + {
+        "none": b"", "binary": b"\xff\xfe\x00\x01junk" * 20,
+        # decodes as UTF-8, but is outside the character set of every strict grammar
+        "utf8-outside-charset": b"\x00\x00\x01\x7f" + "\u00e9\u4e2d\x85".encode("utf-8") * 30}[tailname]
     p = os.path.join(tmpdir, fname)
     os.makedirs(os.path.dirname(p), exist_ok=True)
     with open(p, "wb") as f:
@@ -242,7 +277,7 @@ def check_variant(fname, kwname, tailname, acc, tmpdir):
     mk = dict(kwarg_sets())[kwname]
     ref = None
     for name, thunk in path_entries(p, data):
-        if name in ("str", "StringIO", "text-stream") and tailname != "none":
+        if name in ("str", "StringIO", "text-stream", "text-stream-after-read") and tailname == "binary":
             continue                       # a str cannot hold the binary tail
         case = {"kind": "variant", "file_name": fname, "kwargs": kwname, "tail": tailname, "entry": name}
         acc.n += 1
@@ -283,7 +318,7 @@ def shard_variants(spec):
     acc = Acc()
     tmpdir = tempfile.mkdtemp(prefix="c09v_")
     try:
-        for tailname in ("none", "binary"):
+        for tailname in ("none", "binary", "utf8-outside-charset"):
             check_variant(fname, kwname, tailname, acc, tmpdir)
     finally:
         shutil.rmtree(tmpdir, ignore_errors=True)
@@ -459,7 +494,7 @@ def run(ctx):
                 "every k around each chunk boundary of 7/64/8192 (thorough: every k < 140 and +/-5 around 7/16/64/4096/8192), NULs, valid UTF-8, truncated multi-byte, second "
                 "label, garbage, open quote/comment, long ASCII run) x entry points (str path, Path, file: URL, text "
                 "stream, binary stream, BytesIO, short-read raw stream in binary and text mode, bytes, str, StringIO) "
-                "x chunk sizes %r (stream entries only); variants: %d file names (blanks, '#', '%%', '?', '[', non-ASCII, sub-directories) x %d keyword-argument sets (decoder with a Decimal real class, container classes, grammar+decoder, explicit parser) x 12 ways of naming the data (str, bytes, str path, Path, a non-pathlib os.PathLike, os.DirEntry, file: URL with and without host, streams) x {no tail, binary tail}, every result compared type-strictly; dump: %d modules x 5 encoders x 6 targets; non-trivial = "
+                "x chunk sizes %r (stream entries only); variants: %d file names (blanks, '#', '%%', '?', '[', non-ASCII, sub-directories) x %d keyword-argument sets (decoder with a Decimal real class, container classes, grammar+decoder, explicit parser) x 16 ways of naming the data (str, bytes, str path, Path, a non-pathlib os.PathLike, os.DirEntry, file: URL with and without host, streams, streams positioned behind a header by seek or read) x {no tail, binary tail, a tail that is UTF-8 but outside every strict character set}, every result compared type-strictly; dump: %d modules x 5 encoders x 6 targets; non-trivial = "
                 "module equal to the label's module and the last token requested was END / written bytes equal "
                 "dumps() and the length reported" % (len(LABELS), len(seps), CHUNKS if q else CHUNKS_THOROUGH,
                                                     len(FILE_NAMES), len(kwarg_sets()), len(dump_modules())),
